@@ -27,7 +27,7 @@ ASSUMPTIONS = [
 ]
 TIMEOUT = {"quick": 1800, "thorough": 5400}
 MIN_COUNTERS = {"quick": {"grid_values_compared": 700, "loss_terms_compared": 40, "dyn_grids_compared": 30},
-                "thorough": {"grid_values_compared": 30000, "loss_terms_compared": 600, "dyn_grids_compared": 500}}
+                "thorough": {"grid_values_compared": 9000, "loss_terms_compared": 600, "dyn_grids_compared": 500}}
 DYNS = ["burgers", "fisher", "fisher_rgrid", "ou", "mass", "ns"]
 TERMS = ["norm_statio", "norm_nonstatio", "ic", "dirichlet_statio", "dirichlet_nonstatio", "neumann_statio",
          "neumann_nonstatio"]
